@@ -211,7 +211,7 @@ Proof.
   pose proof (dec_digits_wf (Z.abs_N z)) as W.
   unfold remove_sep, use_grouping, sign_str.
   destruct (o_sep o) as [|c0 sr] eqn:Es.
-  - simpl. rewrite andb_false_r. reflexivity.
+  - simpl. reflexivity.
   - destruct Hs as [Hd Hm]. cbn [is_empty].
     destruct (_ && _); destruct (z <? 0)%Z;
       rewrite ?rm_other by assumption;
@@ -243,3 +243,62 @@ Proof.
     apply Z.ltb_ge in Ez. unfold signed. rewrite N2Z.inj_abs_N. lia.
 Qed.
 
+
+(* the expansion has no leading zero (so it is the canonical decimal numeral of n) *)
+Lemma digs_fuel_head : forall f n acc, n <> 0 -> hd 0 (digs_fuel f n acc) <> 0.
+Proof.
+  induction f as [|f IH]; intros n acc Hn; cbn [digs_fuel].
+  - exact Hn.
+  - destruct (n <? 10) eqn:E; [exact Hn|].
+    apply IH. apply N.ltb_ge in E. intro H0.
+    assert (n / 10 >= 1); [|lia].
+    apply N.le_ge. apply N.div_le_lower_bound; lia.
+Qed.
+
+Lemma dec_digits_no_leading_zero : forall n, n <> 0 -> hd 0 (dec_digits n) <> 0.
+Proof. intros. apply digs_fuel_head. assumption. Qed.
+
+(* uniqueness of decimal numerals: digits below 10, no leading zero, same value => same list *)
+Lemma val_lower : forall d ds, wfd (d :: ds) -> d <> 0 -> 10 ^ len ds <= val (d :: ds).
+Proof.
+  intros d ds W Hd. rewrite val_cons. pose proof (pow10_pos (len ds)).
+  assert (1 <= d) by lia. nia.
+Qed.
+
+Lemma numeral_length_unique : forall a b, wfd a -> wfd b -> a <> [] -> b <> [] ->
+  hd 0 a <> 0 -> hd 0 b <> 0 -> val a = val b -> List.length a = List.length b.
+Proof.
+  intros a b Wa Wb Na Nb Ha Hb E.
+  destruct a as [|x a]; [congruence|]. destruct b as [|y b]; [congruence|]. cbn [hd] in *.
+  pose proof (val_lower x a Wa Ha) as La. pose proof (val_lower y b Wb Hb) as Lb.
+  pose proof (val_bound (x :: a) Wa) as Ua. pose proof (val_bound (y :: b) Wb) as Ub.
+  cbn [List.length] in *. rewrite Nat2N.inj_succ in Ua, Ub. rewrite E in *.
+  destruct (Nat.lt_trichotomy (List.length a) (List.length b)) as [L|[L|L]]; [|lia|].
+  - exfalso. assert (10 ^ N.succ (len a) <= 10 ^ len b) by (apply N.pow_le_mono_r; lia). lia.
+  - exfalso. assert (10 ^ N.succ (len b) <= 10 ^ len a) by (apply N.pow_le_mono_r; lia). lia.
+Qed.
+
+Lemma numeral_same_length_unique : forall a b, wfd a -> wfd b ->
+  List.length a = List.length b -> val a = val b -> a = b.
+Proof.
+  induction a as [|x a IH]; intros b Wa Wb L E.
+  - destruct b; [reflexivity|discriminate].
+  - destruct b as [|y b]; [discriminate|]. injection L as L.
+    inversion Wa; subst. inversion Wb; subst.
+    rewrite !val_cons, L in E.
+    pose proof (val_bound a H2) as Ba. pose proof (val_bound b H4) as Bb. rewrite L in Ba.
+    set (P := 10 ^ len b) in *.
+    assert (x = y) by nia. subst y. f_equal. apply IH; try assumption. lia.
+Qed.
+
+Theorem dec_digits_unique : forall n ds, n <> 0 -> wfd ds -> ds <> [] -> hd 0 ds <> 0 ->
+  val ds = n -> ds = dec_digits n.
+Proof.
+  intros n ds Hn W NE H0 V.
+  apply numeral_same_length_unique; try assumption; [apply dec_digits_wf| |rewrite dec_digits_val; assumption].
+  apply numeral_length_unique; try assumption.
+  - apply dec_digits_wf.
+  - apply dec_digits_nonempty.
+  - apply dec_digits_no_leading_zero. assumption.
+  - rewrite dec_digits_val. assumption.
+Qed.
